@@ -11,6 +11,10 @@ from ..gen import c09_exprs as G
 from ..oracle import c09_units as U
 from .. import cover, monitor
 
+# monitors are self-sufficient (judge a call from its arguments and result): the repository's own tests run under them
+# as an extra workload in the thorough tier (vf/repotests.py)
+REPOTESTS = True
+
 RULE = ('expression cases: round-robin over nesting depth 0-4 (exactly reached by a forced spine; a parenthesised '
         'exponent may add one level) x white-space class (none / blanks / tabs, CR, LF) x partner class (random '
         'expression compensated to equal dimension / same structure with other units of equal dimension / SI base '
